@@ -213,7 +213,7 @@ func RelName(name, dir string) string {
 }
 
 var (
-	frameFuncRe = regexp.MustCompile(`(?m)^(github\.com/jsightapi/[^\s]+?)\(`)
+	frameFuncRe = regexp.MustCompile(`(?m)^(github\.com/jsightapi/[^\n]+)\([^\n]*$`)
 	digitsRe    = regexp.MustCompile(`\d+`)
 	hexRe       = regexp.MustCompile(`0x[0-9a-f]+`)
 )
